@@ -26,6 +26,7 @@ inductive MErr where
   | keyError        -- `additional[par][name]` missing
   | dupColumn       -- "Parameter {par} already exists in table"
   | noModelName     -- "Input table should contain a MODEL_NAME column"
+  | fileExists      -- OSError of `writeto(..., overwrite=False)` on an existing file
   deriving DecidableEq, Repr
 
 def MErr.toString : MErr → String
@@ -36,6 +37,7 @@ def MErr.toString : MErr → String
   | .keyError => "keyError"
   | .dupColumn => "dupColumn"
   | .noModelName => "noModelName"
+  | .fileExists => "fileExists"
 
 /-! ## numpy primitives -/
 
@@ -329,5 +331,38 @@ def nData (flags : List Nat) : Nat := flags.countP (fun f => f == 1 || f == 4)
 
 /-- the `(n_data, n_fits)` pair printed for one source: `n_fits = len(info.chi2)` -/
 def counts {α : Type} (flags : List Nat) (chi2 : List α) : Nat × Nat := (nData flags, chi2.length)
+
+/-! ## labelled columns of the listings -/
+
+/-- the columns `write_parameters` / `write_parameter_ranges` walk, in the header loop and in the body
+    loop alike: the table's columns in file order, `MODEL_NAME` skipped by name wherever it stands -/
+def paramLabels (cols : List String) : List String := cols.filter (fun c => c != "MODEL_NAME")
+
+/-- the header labels of one listing -/
+def printHeader (cols : List String) : List String := paramLabels cols
+
+/-- the parameter cells of one printed line; a table row is a record `column name ↦ value` -/
+def printCells {K : Type} (cols : List String) (row : String → K) : List K := (paramLabels cols).map row
+
+/-- the table `plot_params_1d` / `plot_params_2d` obtain for one source: `info.filter_table(t)` on the
+    prepared table — the `log_x` / `log_y` options only select what is drawn -/
+def plotTable {V : Type} (logX logY : Bool) (fileRows : List (String × V)) (modelName : List String) :
+    Except MErr (List (String × V)) :=
+  filterTable (prepTable fileRows) modelName
+
+/-! ## the `convolved/` directory over several runs -/
+
+/-- a directory: file name ↦ content -/
+abbrev Dir (C : Type) := String → Option C
+
+def putFile {C : Type} (n : String) (c : C) (dir : Dir C) : Dir C := fun m => if m = n then some c else dir m
+
+/-- the final loop of `convolve_model_dir`: `fluxes[i].write(path, overwrite=overwrite)` filter by
+    filter; an existing file stops the run (OSError) unless `overwrite`; files written before stay -/
+def writeFiles {C : Type} (overwrite : Bool) : List (String × C) → Dir C → Dir C × Option MErr
+  | [], dir => (dir, none)
+  | (n, c) :: rest, dir =>
+    if !overwrite && (dir n).isSome then (dir, some .fileExists)
+    else writeFiles overwrite rest (putFile n c dir)
 
 end SF.Match
